@@ -4,6 +4,7 @@ import LyModel.Lyb.HashLemmas5
 import LyModel.Lyb.RevLemmas
 import LyModel.Lyb.JenkLemmas
 import LyModel.Lyb.ChunkSkip
+import LyModel.Lyb.ChunkCounts8
 /-!
 # C01 (LYB part) — property theorems
 
@@ -132,10 +133,47 @@ example : GoodFrame exP [(3, 0, [1, 2, 3]), (1, 1, [0, 0, 4])] := by
   refine ⟨rfl, by decide, by decide, by decide, by decide, by decide, ?_⟩
   intro h; exact absurd h (by decide)
 
--- OPEN: writer_counts_good — the image the printer produces for a top-level frame is `chunkBytes P cs` with
--- `GoodFrame`-shaped counts except in the F50 (a) case.  Needs the inner-chunk counts in the writer invariant
--- (`lyb_chunk_roundtrip` erases them on purpose: the data path never reads them).  Executed instead: the `skip` op of
--- wb_lyb (every sequence of ≤ 5 ops, boundary sweeps) agrees with `rskip` on all cases, failing ones included.
+/-- … and the writer side, closing the gap for a frame that is the whole stream (`start :: body ++ [stop]`, any
+well-nested body: payloads of any size, any nesting): the image the printer produces is a list of counted chunks, and
+`lyb_read_start_siblings; lyb_skip_siblings; lyb_read_stop_siblings` consumes it to the last byte — **or** the image
+has exactly the shape of F50 (a): more than one chunk and a last record `(size 0, inner > 0)`.  So (a) is the only way
+`lyb_skip_siblings` can miss the end of a top-level frame. -/
+theorem lyb_skip_top_frame (P : Params) (hP : P.Ok) (body : List Op) (hb : wellNestedFrom 0 body = true) (img : Bytes)
+    (hw : writeAll P (.start :: body ++ [.stop]) = some img) :
+    ∃ cs : List (Nat × Nat × Bytes), img = chunkBytes P cs ∧
+      (rstop (rskip P (cs.length + 1) (rstart P { inp := img, frames := [] })) = some { inp := [], frames := [] }
+       ∨ (1 < cs.length ∧ ∃ i c, 0 < i ∧ cs.getLast? = some (0, i, c))) := by
+  simp only [writeAll] at hw
+  split at hw
+  · simp at hw
+  · rename_i w' hrun
+    simp only [Option.some.injEq] at hw
+    subst hw
+    obtain ⟨bs, e, s, i, he, hs, hi, hseg, hcnt, hhist, hhead⟩ := writer_top_frame P hP.size_pos body hb w' hrun
+    by_cases hbad : bs ≠ [] ∧ s = 0 ∧ i ≠ 0
+    · obtain ⟨hne, hs0, hi0⟩ := hbad
+      obtain ⟨cs, e1, e2⟩ := hist_image_eq P w'.out e s i he bs hhist
+      rw [hhead, List.drop_zero] at e1
+      refine ⟨_, e1, Or.inr ⟨?_, i, serialize P (w'.out.drop (e + 1)), by omega, ?_⟩⟩
+      · have : 0 < bs.length := List.length_pos_iff.mpr hne
+        simp only [List.length_append, List.length_singleton]; omega
+      · simp [hs0]
+    · obtain ⟨cs, e1, e2, _⟩ := hist_image_frame P w'.out e s i he hs hi hseg hcnt bs hhist (by
+        intro hne hs0
+        by_cases hi0 : i = 0
+        · exact hi0
+        · exact absurd ⟨hne, hs0, hi0⟩ hbad)
+      rw [hhead, List.drop_zero] at e1
+      refine ⟨cs, e1, Or.inl ?_⟩
+      have := lyb_skip_lands_at_end_partial P hP cs e2 []
+      simpa [e1] using this
+
+/-- non-vacuity: both alternatives occur — a two-chunk frame that is skipped correctly, and the F50 (a) shape -/
+example :
+    writeAll exP (.start :: [.write [1, 2, 3, 4], .start, .stop] ++ [.stop]) = some [3, 0, 1, 2, 3, 1, 1, 4, 0, 0]
+    ∧ rstop (rskip exP 3 (rstart exP { inp := [3, 0, 1, 2, 3, 1, 1, 4, 0, 0], frames := [] })) = some { inp := [], frames := [] }
+    ∧ writeAll exP (.start :: [.write [1, 2, 3], .start, .stop] ++ [.stop]) = some [3, 0, 1, 2, 3, 0, 1, 0, 0] := by
+  decide
 
 /-! ## schema hashes -/
 
